@@ -128,6 +128,10 @@ func (s *Sim) Cleanup() {
 
 // Host returns (creating it if necessary) the host with this abstract name.
 func (s *Sim) Host(name string) *Host {
+	/* "X_p" is host X's name on another port (see HostLike) */
+	if strings.HasSuffix(name, "_p") && len(name) > 2 {
+		return s.HostLike(name, strings.TrimSuffix(name, "_p"))
+	}
 	s.mu.Lock()
 	defer s.mu.Unlock()
 	if h, ok := s.hosts[name]; ok {
